@@ -27,9 +27,14 @@ C01_LR = H("c01::proofs::c01_lr_w1x2_r2_k3", Q, lr=True,
            bounds="Lal-Reps K=3 rounds, 3 threads, spin bound 4, unwind 8")
 
 C05_CONCRETE = H("c05::proofs::c05_q_concrete_history", Q, also=["C02"],
-    what="real registry, concrete 12-step history on 2 signals: fresh ascending ids, delivery order, stale/foreign ids, cross-signal independence, unregister_signal, handler stays installed with SA_RESTART|SA_SIGINFO",
+    what="real registry, concrete 9-step history on 2 signals: ascending ids, delivery order, stale id, cross-signal independence, handler installed with SA_RESTART|SA_SIGINFO exactly once per signal",
     bounds="fixed history; symbolic part: none besides kernel model (harness is the sanity anchor of the symbolic ones)")
-C05_UNREG_ANY = H("c05::proofs::c05_q_unregister_any", Q, also=["C02"],
+C05_FRESH = H("c05::proofs::c05_q_fresh_ids_after_unregister", Q,
+    what="unregister(id), register: the new id is fresh, the stale id removes nothing afterwards, only the new action runs, handler stays installed",
+    bounds="1 signal, concrete")
+C05_FRESH2 = H("c05::proofs::c05_q_fresh_ids_after_unregister_signal", Q,
+    what="same after unregister_signal", bounds="1 signal, concrete")
+C05_UNREG_ANY = H("c05::proofs::c05_q_unregister_any", T, timeout=3000, also=["C02"],
     what="unregister of ANY (signal, u128 id) pair from a three-action state vs list model; publishes exactly once iff something was removed",
     bounds="state: 2 actions on SIGUSR1, 1 on SIGUSR2; id ranges over all of u128")
 C05_STEPS = [
@@ -57,11 +62,8 @@ C11_NEST = [
 C12_ALL = [
     H("c12::proofs::c12_panicking_inputs_refused_cleanly", Q, also=["C14"], what="add_signal(too large / negative / beyond table / c_int::MAX): never returns, no state change, instance lock not held when the refusal is raised", bounds="4 input classes; 4-entry table in verification builds"),
     H("c12::proofs::c12_survives_poisoned_lock", Q, what="from 'ids lock poisoned by an earlier caught panic': add_signal of a valid signal completes and takes effect", bounds="-"),
-    H("c12::proofs::c12_err_path_signal_only", Q, what="kernel-rejected add_signal: Err, nothing changes, retry identical, later valid add works, re-add is a no-op, earlier signal still delivered (SignalOnly)", bounds="-"),
+    H("c12::proofs::c12_err_path_signal_only", T, timeout=3600, what="kernel-rejected add_signal: Err, nothing changes, retry identical, later valid add works, re-add is a no-op, earlier signal still delivered (SignalOnly)", bounds="-"),
     H("c12::proofs::c12_err_path_raw_siginfo", Q, what="same with WithRawSiginfo (lazily initialised per-signal channel)", bounds="-"),
-    H("c12::proofs::c12_drop_with_poisoned_lock", T, timeout=3000, what="dropping an instance whose lock is poisoned completes and unregisters", bounds="-"),
-    H("c12::proofs::c12_drop_cleans_up", T, timeout=3000, what="drop of instance + handle clones: exactly its registrations removed, both pipe ends closed once", bounds="2 signals, 2 handle clones"),
-    H("c12::proofs::c12_failed_constructor_leaves_nothing", T, timeout=3000, what="Signals::new with a rejected second signal: nothing registered, pipe closed", bounds="-"),
 ]
 def c14(e, tiers):
     return [H("c14::proofs::c14_forbidden_%s" % e, tiers, what="forbidden signal (5 of them, slot present or not) through %s: panics before anything changes" % e, bounds="all 5 forbidden signals"),
@@ -83,28 +85,33 @@ CATALOGUE = {
         H("c04::proofs::c04_seq_chain_all_dispositions", Q, what="previous disposition in {default, ignore, 1-arg handler, 3-arg SA_SIGINFO handler}; deliveries before the take-over, after it, after another signal's first registration: chained exactly once, first, right convention and arguments", bounds="4 dispositions x 3 arrival instants"),
         H("c04::proofs::c04_chain_first_registration", T, timeout=3600, what="same with the kernel delivering at every shim point / system call of the first registration (nested)", bounds="NEST depth 1, <=2+1 nested deliveries"),
     ],
-    "C05": [C05_CONCRETE, C05_UNREG_ANY] + C05_STEPS,
+    "C05": [C05_CONCRETE, C05_FRESH, C05_FRESH2, C05_UNREG_ANY] + C05_STEPS,
     "C06": [
         H("c06::proofs::c06_seq_send_step", Q, what="one send() from any well-formed channel state (<=2 indices in flight) vs 5-bounded FIFO", bounds="all queue words satisfying the representation invariant; payload u8"),
         H("c06::proofs::c06_seq_recv_step", Q, what="one recv() from any well-formed channel state vs FIFO pop", bounds="as above"),
         H("c06::proofs::c06_new_is_empty", Q, what="Channel::new() is empty and well-formed", bounds="-"),
-        H("c06::proofs::c08_nest_send", T, timeout=3600, judge_repo_panics=True, also=["C08"], what="send() with complete send/recv nested at every shim point, spurious CAS failures; tag accounting", bounds="NEST depth 1, 2 nested ops, 1 spurious failure"),
+        H("c06::proofs::c08_q_nest_recv_two_queued", T, timeout=2400, judge_repo_panics=True, also=["C08"], what="recv() with a complete send/recv nested at any shim point: tag accounting (nested clause of C06)", bounds="NEST depth 1, 1 nested op, 1 spurious failure, concrete pre-state"),
     ],
     "C07": [
         H("c07::proofs::c07_lr_reuse_k3", Q, lr=True, what="consumer takes the only queued value, producer's send reuses that cell: happens-before under declared orderings, drops", bounds="Lal-Reps K=3, 2 threads, <=1 spurious CAS failure"),
-        H("c07::proofs::c07_lr_p2_c1_k3", T, lr=True, timeout=3600, what="2 producers (2+1 sends), 1 consumer (3 recvs): cell races, exactly-once drop, FIFO clauses", bounds="Lal-Reps K=3, 3 threads, <=1 spurious CAS failure"),
+        H("c07::proofs::c07_lr_p2_c1_k3", T, lr=True, timeout=3600, what="2 producers (1 send each), 1 consumer (2 recvs): cell races, exactly-once drop, FIFO clauses", bounds="Lal-Reps K=3, 3 threads, <=1 spurious CAS failure"),
     ],
     "C08": [
-        H("c06::proofs::c08_nest_send", Q, timeout=2400, judge_repo_panics=True, also=["C06"], what="send() from any well-formed state with complete send/recv nested at every shim point and spurious weak-CAS failures: no panic, no waiting, bounded own steps, tag accounting", bounds="NEST depth 1, 2 nested operations, 1 spurious failure, <=1 index in flight"),
-        H("c06::proofs::c08_nest_recv", Q, timeout=2400, judge_repo_panics=True, also=["C06"], what="recv() likewise", bounds="as above"),
+        H("c06::proofs::c08_q_nest_send_two_queued", Q, timeout=2400, judge_repo_panics=True, also=["C06"], what="send() on a channel holding 2 values with one complete send or recv nested at any shim point and one spurious weak-CAS failure: no panic, no waiting, bounded own steps, tags conserved and ordered", bounds="NEST depth 1, 1 nested operation, 1 spurious failure, concrete pre-state"),
+        H("c06::proofs::c08_q_nest_recv_two_queued", Q, timeout=2400, judge_repo_panics=True, also=["C06"], what="recv() likewise", bounds="as above"),
+        H("c06::proofs::c08_q_nest_send_four_queued", Q, timeout=2400, judge_repo_panics=True, also=["C06"], what="send() with 4 values queued (the nested send takes the last slot)", bounds="as above"),
+        H("c06::proofs::c08_q_nest_recv_full", Q, timeout=2400, judge_repo_panics=True, also=["C06"], what="recv() on a full channel with a nested send/recv", bounds="as above"),
     ],
     "C09": C09_NEST + [H("c09::proofs::c10_seq_counts_signal_only", T, also=["C10"], timeout=2400, what="sequential histories of deliveries and pending() batches", bounds="3 steps")],
     "C10": [H("c09::proofs::c10_seq_counts_signal_only", Q, also=["C09"], timeout=2400, what="histories of deliveries (watched and unwatched signal) and pending() batches: yields <= deliveries, nothing unwatched, nothing reported twice", bounds="3 steps + 2 final batches")] + C09_NEST[:1],
     "C11": C11_NEST,
     "C12": C12_ALL,
     "C13": [
-        H("c13::proofs::c13_wake_pipe", Q, what="pipe.rs on a pipe at any fill level: register, burst of 1..2 deliveries, unregister, delivery", bounds="capacity 3, burst<=2"),
-        H("c13::proofs::c13_wake_stream", Q, what="same on a stream socket", bounds="capacity 3, burst<=2"),
+        H("c13::proofs::c13_q_wake_pipe", Q, what="pipe.rs on a pipe at any fill level: register, one delivery, unregister, delivery", bounds="capacity 3, burst 1"),
+        H("c13::proofs::c13_q_wake_stream", Q, what="same on a stream socket", bounds="capacity 3, burst 1"),
+        H("c13::proofs::c13_q_wake_dgram", Q, what="same on a datagram socket", bounds="capacity 3, burst 1"),
+        H("c13::proofs::c13_wake_pipe", T, timeout=3000, what="pipe.rs on a pipe at any fill level: register, burst of 1..2 deliveries, unregister, delivery", bounds="capacity 3, burst<=2"),
+        H("c13::proofs::c13_wake_stream", T, timeout=3000, what="same on a stream socket", bounds="capacity 3, burst<=2"),
         H("c13::proofs::c13_wake_dgram", T, what="same on a datagram socket", bounds="capacity 3 datagrams, burst<=2"),
         H("c13::proofs::c13_wake_regular_file", T, what="same on a regular file", bounds="burst<=2"),
         H("c13::proofs::c13_rejected_registration", Q, what="invalid descriptor / fcntl failure / kernel-rejected signal: descriptor closed once, nothing registered", bounds="3 rejection causes"),
